@@ -239,7 +239,7 @@ var _ uuid.UUID
 // C11 (delivery whatever the timing): the applier notifies with a non-blocking send, and the proposer is not yet receiving
 // when Propose returns; so the notification channel must have room for the one outcome it will carry.
 //@ func github.com/satori/go.uuid.NewV4
-//@ props C11 C14
+//@ props C11 C14 C12
 //@ assume
 //@ modifies nothing
 
